@@ -205,14 +205,20 @@ def run_case(case, tmp):
         if s["t"] == "sensor":
             return RSensor(s["id"])
         if s["t"] == "sdict":
-            return CSensorsDict({str(k): sensor(c) for k, c in s["children"]}, s["sid"])
+            d = {str(k): sensor(c) for k, c in s["children"]}
+            out = CSensorsDict(d, s["sid"])
+            d.clear()                      # the caller goes on using the mapping it passed: the composite must have its own
+            return out
         return SensorWrapper(sensor(s["sensor"]), wrapper(s["wrapper"]))
 
     def actuator(s):
         if s["t"] == "actuator":
             return RActuator(s["id"])
         if s["t"] == "adict":
-            return CActuatorsDict({str(k): actuator(c) for k, c in s["children"]}, s["sid"])
+            d = {str(k): actuator(c) for k, c in s["children"]}
+            out = CActuatorsDict(d, s["sid"])
+            d.clear()
+            return out
         return ActuatorWrapper(actuator(s["actuator"]), wrapper(s["wrapper"]))
 
     def env(s):
@@ -221,11 +227,18 @@ def run_case(case, tmp):
         if s["t"] == "modenv":
             return ModularEnvironment(sensor(s["sensor"]), actuator(s["actuator"]))
         if s["t"] == "modenv_from_dict":
-            return ModularEnvironment.from_dict({str(k): sensor(c) for k, c in s["sensors"]}, {str(k): actuator(c) for k, c in s["actuators"]})
+            ds, da = {str(k): sensor(c) for k, c in s["sensors"]}, {str(k): actuator(c) for k, c in s["actuators"]}
+            out = ModularEnvironment.from_dict(ds, da)
+            ds.clear(); da.clear()
+            return out
         return EnvironmentWrapper(env(s["env"]), wrapper(s["obs"]), wrapper(s["act"]))
 
     def agent(s):
-        return RAgent(s["id"], {str(k): agent(c) for k, c in s["children"]})
+        d = {str(k): agent(c) for k, c in s["children"]}
+        out = RAgent(s["id"], d)
+        d.clear()
+        d["777"] = RAgent(7000 + s["id"], {})     # never part of the tree: must get no event
+        return out
 
     def action(a):
         if a[0] == "dict":
